@@ -1,0 +1,10 @@
+//go:build verif
+
+package parser
+
+// VerifState exposes the buffer window (file offset of the buffer start, read
+// position inside the buffer, number of valid bytes) to the verification
+// harness.  It is compiled only with the "verif" build tag.
+func (p *Parser) VerifState() (from int64, pos, used int) {
+	return p.from, p.pos, p.used
+}
